@@ -312,7 +312,7 @@ fn decision_point_f64(dst: Kind, kseed: u64, j: i64) -> Option<u64> {
 pub fn run(ctx: &mut Ctx) {
     ctx.set_rule(
         "cases are (source format, target format, value) with the value an integer raw value or an IEEE bit pattern; integer sources \
-         enumerated exhaustively (<=24 bit; thorough <=32 bit) or structured (top 24 bits x low patterns, boundaries, random); float \
+         enumerated exhaustively (<=24 bit; thorough <=32 bit) or structured (top 24 bits x low patterns, boundaries, random, and for every magnitude the neighbourhood of the mantissa's rounding half-way point +- {0,1,2, a few low bits}); float \
          sources only inside the documented domain [-1.0, 1.0): all f32 patterns (thorough) or one seed-chosen pattern per window of 64 \
          (quick), f64 by proptest over sign/exponent/mantissa plus truncation decision points (k +- 0..2 ulp)/2^(bits-1); non-trivial: \
          int source not MIN/eq/MAX, float->int input negative or with a non-zero fractional part after scaling, any float<->float case",
@@ -380,6 +380,55 @@ pub fn run(ctx: &mut Ctx) {
         }
     }
     ctx.enumerate("int->float/boundaries", true, bc.into_iter(), check_dyn);
+
+    // (d') neighbourhoods of the rounding half-way points: amplitude = P-bit mantissa at every magnitude, the bit just below the
+    // mantissa set, +- {0, 1, 2, a few low bits}: the values on which one rounding and two successive roundings disagree
+    let mut combos: Vec<(Kind, Kind, u32)> = Vec::new();
+    for &s in &INT_KINDS {
+        for d in [Kind::F32, Kind::F64] {
+            let p = d.float_p();
+            // t = index of the amplitude's leading bit; it must leave room for P mantissa bits and one rounding bit
+            for t in p..s.bits() - 1 {
+                combos.push((s, d, t));
+            }
+        }
+    }
+    let per_combo: u64 = ctx.pick(2 * 18 * 48, 2 * 18 * 1024);
+    let seed_hw = ctx.sub_seed("halfway");
+    let ncombo = combos.len() as u64;
+    ctx.par_enumerate(
+        "int->float/halfway-neighbourhoods",
+        false,
+        ncombo * per_combo,
+        move |i| {
+            let (s, d, t) = combos[(i % ncombo) as usize];
+            let j = i / ncombo;
+            let p = d.float_p();
+            let (neg, dsel, m) = (j % 2 == 1, (j / 2) % 18, j / 36);
+            let r = splitmix(seed_hw ^ (m << 8) ^ t as u64 ^ ((s.bits() as u64) << 48));
+            let mant = (1u128 << (p - 1)) | (r as u128 & ((1u128 << (p - 1)) - 1));
+            let rb = t - p; // index of the rounding bit
+            let base = (mant << (rb + 1)) | (1u128 << rb);
+            let small = 1 + (splitmix(r) % (1u64 << rb.min(10))) as i128;
+            let delta: i128 = match dsel % 9 {
+                0 => 0,
+                1 => 1,
+                2 => -1,
+                3 => 2,
+                4 => -2,
+                5 => small,
+                6 => -small,
+                7 => (1i128 << rb) - 1, // everything below the mantissa set
+                _ => -(1i128 << rb),    // rounding bit clear: the mantissa itself
+            };
+            // odd / even mantissa both occur through `r`; dsel >= 9 flips the lowest mantissa bit to get the other tie direction
+            let amp = (base ^ if dsel >= 9 { 1u128 << (rb + 1) } else { 0 }) as i128 + delta;
+            let amp = if neg { -amp } else { amp };
+            let raw = (amp + s.offset()).clamp(s.min_raw(), s.max_raw());
+            Case { src: s, dst: d, raw }
+        },
+        check_dyn,
+    );
 
     // (e) f64 -> int: random domain values
     let strat = (f64_domain_bits(), 0..INT_KINDS.len()).prop_map(|(b, d)| Case { src: Kind::F64, dst: INT_KINDS[d], raw: b as i128 });
